@@ -6,6 +6,7 @@ CONSTANTS
   GuardTypedNil = TRUE
   CloseOnNilPayload = TRUE
   PooledBuffer = FALSE
+  UEOFIsEnd = FALSE
   MaxSeq = 3
   MaxContent = 3
   MaxChunks = 4
